@@ -60,7 +60,9 @@ theorem suitableNumer_ok {c numer n} (h : suitableNumer c numer = some n) :
 theorem suitableValue_ok {c v numer denom v'} (h : suitableValue c v numer denom = some v') :
     kindOk c v'.kind = true ∧ optAll (classInfo c).numer (fun n => numer == n) = true
     ∧ optAll (classInfo c).nrank (fun n => numer.length == n) = true
-    ∧ (v'.shape = v.shape ∨ (v.shape.length < (numer ++ denom).length)) := by
+    ∧ (v'.shape = v.shape ∨ (v.shape.length < (numer ++ denom).length))
+    ∧ ((v.isArr = true ∨ v.shape = []) → (v'.isArr = true ∨ v'.shape = []))
+    ∧ v'.kind = suitableKind c v.kind := by
   unfold suitableValue at h
   split at h
   · cases h
@@ -76,13 +78,17 @@ theorem suitableValue_ok {c v numer denom v'} (h : suitableValue c v numer denom
       · rename_i hl
         cases h
         simp only [castTo_shape, squeeze0_shape] at hl
-        exact ⟨by simpa using key, h1, h2, Or.inr hl⟩
+        exact ⟨by simpa using key, h1, h2, Or.inr hl, fun _ => Or.inl rfl, by simp⟩
       · cases h
-        exact ⟨by simpa using key, h1, h2, Or.inl (by simp)⟩
+        refine ⟨by simpa using key, h1, h2, Or.inl (by simp), ?_, by simp⟩
+        intro hv
+        unfold castTo squeeze0
+        split <;> split <;> simp_all
 
 theorem assemble_ok (cls : Cls) (v : RawArr) (m : MaskD) (l : List Nat) (nrank drank : Nat) (dshape : List Nat)
     (units : Bool)
     (hlen : nrank + drank ≤ l.length) (hv : v.shape = l) (hk : kindOk cls v.kind = true)
+    (hsc : v.isArr = true ∨ v.shape = [])
     (hn1 : optAll (classInfo cls).numer (fun n => (l.drop (l.length - drank - nrank)).take nrank == n) = true)
     (hn2 : optAll (classInfo cls).nrank (fun n => ((l.drop (l.length - drank - nrank)).take nrank).length == n) = true)
     (hm : maskOk m (l.take (l.length - drank - nrank)) = true)
@@ -94,7 +100,10 @@ theorem assemble_ok (cls : Cls) (v : RawArr) (m : MaskD) (l : List Nat) (nrank d
   simp only [bodyOk, bodyClauses, assemble, List.all_cons, List.all_nil, id, Bool.and_true, Bool.and_eq_true,
     beq_iff_eq, Bool.or_eq_true, Bool.not_eq_true', List.isEmpty_iff, Bool.not_false, true_and,
     and_true, Bool.true_and]
-  refine ⟨?_, ?_, ⟨⟨s2.symm, s3.symm⟩, s4⟩, hd, ⟨hn2, hn1⟩, hk, ?_, ?_, ?_⟩
+  refine ⟨?_, ?_, ?_, ⟨⟨s2.symm, s3.symm⟩, s4⟩, hd, ⟨hn2, hn1⟩, hk, ?_, ?_, ?_⟩
+  · rcases hsc with h | h
+    · exact Or.inl h
+    · exact Or.inr (hv ▸ h)
   · rw [hv]; exact s1
   · split
     · exact maskToReadonly_ok hm
@@ -142,6 +151,16 @@ theorem defaultShape_ok (cls : Cls) (dflt : Option (List Nat × Kind)) (l : List
     · rename_i h; simpa using h
     · exact hc
 
+theorem norm_sc (a : RawArr) : a.norm.isArr = true ∨ a.norm.shape = [] := by
+  unfold RawArr.norm; split <;> simp_all
+
+theorem asValuesAndMask_norm {arg values am} (h : asValuesAndMask arg = some (values, am)) :
+    values.isArr = true ∨ values.shape = [] := by
+  cases arg with
+  | val a => simp only [asValuesAndMask, Option.some.injEq, Prod.mk.injEq] at h; rw [← h.1]; exact norm_sc a
+  | qube o => simp only [asValuesAndMask, Option.some.injEq, Prod.mk.injEq] at h; rw [← h.1]; exact norm_sc _
+  | bad => cases h
+
 theorem build_ok {i : CtorIn} {r : Resolved} {b : Body} (h : build i r = some b) :
     bodyOk b false = true ∧ b.cls = i.cls ∧ (derivsGiven i = true → (classInfo i.cls).derivsOk = true) := by
   unfold build at h
@@ -181,7 +200,8 @@ theorem build_ok {i : CtorIn} {r : Resolved} {b : Body} (h : build i r = some b)
   rename_i m hm
   have hlen' : (orInt r.nrank (classInfo i.cls).nrank).toNat + (orInt r.drank none).toNat ≤ values.shape.length := by omega
   obtain ⟨s1, s2, s3, s4⟩ := split3 values.shape _ _ hlen'
-  obtain ⟨k1, k2, k3, k4⟩ := suitableValue_ok hv
+  obtain ⟨k1, k2, k3, k4, k5, -⟩ := suitableValue_ok hv
+  have hnorm : values.isArr = true ∨ values.shape = [] := asValuesAndMask_norm hav
   have hvs : v.shape = values.shape := by
     rcases k4 with k4 | k4
     · exact k4
@@ -190,7 +210,7 @@ theorem build_ok {i : CtorIn} {r : Resolved} {b : Body} (h : build i r = some b)
       (orInt r.drank none).toNat (defaultShape (classInfo i.cls) r.dflt (orInt r.drank none).toNat
         (List.drop (values.shape.length - (orInt r.drank none).toNat - (orInt r.nrank (classInfo i.cls).nrank).toNat)
           values.shape)) (r.units == RawUnits.some)) false = true := by
-    refine assemble_ok _ _ _ _ _ _ _ _ hlen' hvs k1 k2 k3 (suitableMask_ok hm)
+    refine assemble_ok _ _ _ _ _ _ _ _ hlen' hvs k1 (k5 hnorm) k2 k3 (suitableMask_ok hm)
       (defaultShape_ok _ _ _ _ _ hlen' k2) ?_ ?_
     · intro hu
       cases hok : (classInfo i.cls).unitsOk
